@@ -88,7 +88,7 @@ def sanitize(c: dict, under_pre: bool = False):
         elif under_pre:
             for _r, fn in R.member_fns(m):
                 if fn['ann'] == 'bad':
-                    fn['ann'] = 'chk'
+                    fn['ann'], fn['ret'] = 'chk', fn['ret'] or 'ok'      # (a getter / deleter is annotated through its return)
 
 
 def gen_cls(rng: random.Random, name: str, depth: int, maxdepth: int, targets: list[str], has_base: bool) -> dict:
@@ -620,7 +620,11 @@ def candidates(case: dict):
                         yield d
                 if fn['ann'] in ('bad', 'ign'):
                     d = copy.deepcopy(c)
-                    (d['members'][i] if a == '' else d['members'][i][a])['ann'] = 'chk' if fn['ann'] == 'bad' else 'none'
+                    g = d['members'][i] if a == '' else d['members'][i][a]
+                    if fn['ann'] == 'bad':
+                        g['ann'], g['ret'] = 'chk', fn['ret'] or 'ok'     # (a getter / deleter is annotated through its return)
+                    else:
+                        g['ann'] = 'none'
                     yield d
             if m['kind'] == 'prop':
                 for a in ('set', 'del'):
@@ -851,7 +855,10 @@ def main(ck: Check) -> int:
                 level_note='Lean proof for every class (any member mix, nesting depth, inheritance) by mutual structural induction over '
                            'nested class bodies + node-for-node comparison of real decorated object graphs with the model + two-route '
                            'differential and direct oracle on generated classes; identity of classmethod/staticmethod/property OBJECTS is '
-                           'up to the rebuilt descriptor object (the functions inside are the identical objects)',
+                           'up to the rebuilt descriptor object (the functions inside are the identical objects); decorations that RAISE '
+                           '(hints rejected at decoration time) are modelled: same exception at the same member on both routes and the '
+                           'same half-decorated class, or — under warning_cls_on_decorator_exception — that member alone left as it was '
+                           'with one warning (exception status and warning count compared with the model on every case)',
                 assumptions=[
                     'hints that need no class stack (no Self, no forward reference to an enclosing class): by-hand decoration has none',
                     'conf.is_pep557_fields is False (default): dataclass field checking monkey-patches __setattr__ beyond the members',
